@@ -21,6 +21,8 @@ Conditions
   ["pf", v]           @predicate function pos(V[v])        (returns a > 0)
   ["PC", v]           Predicate subclass BigP(it=V[v])     (__call__ returns it.b > 1)
   ["pv", O, k]        @predicate function val_above(O, k) over a VALUE operand O (returns value > k)
+  ["pv2", O1, O2]     @predicate function val_less(O1, O2) over TWO value operands (returns first < second)
+  ["pgap", O1, O2]    @predicate function gap(O1, O2) returning the INT O1 - O2 (true iff non-zero: a truthy non-bool result)
   ["over", v, k]      method call V[v].over(k)             (returns a > k; parameter k has the default 5)
   ["pq", v]           @predicate function whose body builds and evaluates its OWN query inside `with symbolic_mode():`
                       (returns: some object of SUBQ["pool"] has a smaller a)
@@ -170,6 +172,18 @@ def has_smaller(x):
 
 
 @predicate
+def val_less(first, second):
+    """Predicate over two VALUES (usually two attributes / indices / calls of the same variable)."""
+    return first < second
+
+
+@predicate
+def gap(first, second):
+    """A predicate whose result is not a bool: an int that is truthy iff the two values differ."""
+    return first - second
+
+
+@predicate
 def exceeds(k, x):
     """Two-argument predicate with the variable in the SECOND position."""
     CALLS["exceeds"] += 1
@@ -261,6 +275,8 @@ def cond_vars(c) -> List[str]:
                 out.append(c[1])
         elif k == "pv":
             opv(c[1])
+        elif k in ("pv2", "pgap"):
+            opv(c[1]); opv(c[2])
         elif k == "big":
             if c[1] not in out:
                 out.append(c[1])
@@ -296,6 +312,8 @@ def extras_needed(c) -> set:
             opv(c[1]); opv(c[2])
         elif k == "pv":
             opv(c[1])
+        elif k in ("pv2", "pgap"):
+            opv(c[1]); opv(c[2])
         elif k == "flag":
             need.add("f")
         elif k == "tr" and c[2] in ("sl", "t"):
@@ -415,6 +433,10 @@ def build(c, V):
         return has_smaller(V[c[1]])
     if k == "pv":
         return val_above(build_operand(c[1], V), c[2])
+    if k == "pv2":
+        return val_less(build_operand(c[1], V), build_operand(c[2], V))
+    if k == "pgap":
+        return gap(build_operand(c[1], V), build_operand(c[2], V))
     if k == "pf":
         return pos(V[c[1]])
     if k == "PC":
@@ -512,6 +534,10 @@ def holds(alg, c, env, pools=None):
         return alg.or_(*[alg.cmp("lt", o.a, env[c[1]].a) for o in SUBQ["pool"]])
     if k == "pv":
         return alg.cmp("gt", operand_value(c[1], env), c[2])
+    if k == "pv2":
+        return alg.cmp("lt", operand_value(c[1], env), operand_value(c[2], env))
+    if k == "pgap":
+        return alg.cmp("ne", operand_value(c[1], env), operand_value(c[2], env))
     if k == "pf2":
         return alg.cmp("gt", env[c[1]].a, c[2])
     if k == "PC2":
@@ -573,6 +599,10 @@ def leaf_vocabulary(v="x", rich=True):
         L.append(["pv", ["a", v, "b"], 0])            # predicate over attribute / index / call values
         L.append(["pv", ["t", v, 1], 1])
         L.append(["pv", ["c", v, 0], 2])
+        L.append(["pv2", ["a", v, "a"], ["a", v, "b"]])     # a predicate over two values of the same variable
+        L.append(["pv2", ["t", v, 0], ["a", v, "c"]])
+        L.append(["pv2", ["c", v, 1], ["d", v]])
+        L.append(["pgap", ["a", v, "a"], ["a", v, "b"]])    # a predicate returning a non-bool (int) result
     return L
 
 
